@@ -65,6 +65,7 @@ func c05(c *Ctx) {
 	r.Assume("io.ReadAll / json.Decoder treat exactly io.EOF from the message reader as end of message (library contract)")
 
 	rd.eofProvenance("C05.eof-provenance")
+	rd.unexpectedEOFProvenance("C05.eof-provenance")
 
 	// ---- header-eof: (*Conn).read
 	{
@@ -231,4 +232,58 @@ func (rd *reader) eofProvenance(rule string) {
 		ok, why = false, "no possibly-EOF return found in messageReader.Read (rule blind)"
 	}
 	r.Check(rule, shortFn(fn), "return-may-be-io.EOF", fn.Pos(), ok, why)
+}
+
+// unexpectedEOFProvenance: the converse of eofProvenance.  A transport io.EOF
+// is turned into the abnormal-closure error only where the message really is
+// incomplete *after* the bytes delivered with that EOF were accounted for: the
+// path returning errUnexpectedEOF knows (bytes remaining in the frame, as
+// stored by this call, >= 1) or (FIN not seen).  Otherwise the last message,
+// completely received in the same transport read as the EOF, is reported as
+// truncated — the result would depend on how the transport chunks the bytes.
+func (rd *reader) unexpectedEOFProvenance(rule string) {
+	c, r := rd.c, rd.c.R
+	fn := rd.mrRead
+	ue := c.P.Global("errUnexpectedEOF")
+	ok, why := true, "errUnexpectedEOF replaces a transport io.EOF only on paths that know the message to be incomplete after accounting for the bytes just read"
+	n := 0
+	c.explore(rule, fn, core.Opts{Unroll: 0, RecordLoads: true, Inline: rd.inl()}, func(p *core.Path) {
+		if p.End != core.EndReturn || len(p.Results) != 2 {
+			return
+		}
+		e := strip(p.Results[1])
+		if !(e.Kind == core.KLoad && e.Args[0].Kind == core.KGlobal && e.Args[0].Ref == interface{}(ue)) {
+			return
+		}
+		// only conversions of an io.EOF that came with this call's transport read
+		var readErr *core.Term
+		for i := range p.Events {
+			ev := &p.Events[i]
+			if ev.Kind == core.EvCall && ev.Static != nil && extName(ev.Static) == "(*bufio.Reader).Read" && rd.usesBr(ev) {
+				readErr = p.X.ExtractOf(ev.Result, 1, nil)
+			}
+		}
+		if readErr == nil || !knownEOF(p, readErr) {
+			return
+		}
+		n++
+		var rem, fin *core.Term
+		for i := range p.Events {
+			ev := &p.Events[i]
+			if ev.Kind == core.EvLoad || ev.Kind == core.EvStore {
+				if isFieldAddr(ev.Addr, rd.readRemaining) {
+					rem = ev.Val
+				}
+				if isFieldAddr(ev.Addr, rd.readFinal) {
+					fin = ev.Val
+				}
+			}
+		}
+		more := rem != nil && knowsGe(p, len(p.Lits), 1, isW(p.X, rem))
+		notFinal := fin != nil && hasLit(p, len(p.Lits), false, func(x *core.Term) bool { return x == fin })
+		if !more && !notFinal {
+			ok, why = false, "the path returning at "+c.P.Pos(p.Ret.Pos())+" reports an abnormal closure for an io.EOF that arrived together with payload bytes without knowing that bytes are still missing after those were counted (remaining >= 1: "+yn(more)+", FIN not seen: "+yn(notFinal)+"): a last message that arrived completely in the same transport read as the EOF is reported as truncated"
+		}
+	})
+	r.Check(rule, shortFn(fn), "abnormal-closure-only-if-incomplete", fn.Pos(), ok && n > 0, why)
 }
